@@ -993,6 +993,10 @@ class Alias:
             recv = self.eval(fn.value, env)
             if fn.attr in T.VIEW_METHODS:
                 return Val(recv.orig, frozenset([K_ARR]) if recv.orig else UNK)
+            if fn.attr == "astype" and any(k.arg == "copy" and isinstance(k.value, ast.Constant) and k.value.value is False
+                                           for k in c.keywords):
+                # astype(..., copy=False) hands back the array itself whenever no conversion is needed
+                return Val(recv.orig, frozenset([K_ARR]) if recv.orig else UNK)
             if fn.attr in T.FRESH_METHODS:
                 return Val(EMPTY, frozenset([K_ARR]) if fn.attr in ("copy", "astype", "flatten", "toarray",
                                                                      "todense") else UNK)
